@@ -102,7 +102,7 @@ theorem detection_hands_over_every_byte (cfg : Cfg) (c : Script)
 
 def exCfg : Cfg :=
   { start := 0, port53 := false, sniff := true, window := 100000, dnsUnpackOk := false, dnsCtl := false,
-    likely := true, needMore := [16], rightCW := true, leftCW := true }
+    likely := true, needMore := [16], offer := [(16, 4080)], rightCW := true, leftCW := true }
 /-- "GET / HTTP/1.1\r\n" at t=0, the rest 300 ms later, FIN at 2.3 s -/
 def exClient : Script :=
   ⟨[⟨0, [71, 69, 84, 32, 47, 32, 72, 84, 84, 80, 47, 49, 46, 49, 13, 10]⟩, ⟨300000, [72, 111, 115, 116]⟩], 2300000, .eof⟩
@@ -124,7 +124,7 @@ example : frontBound exCfg = 200000 ∧ frontBound { exCfg with port53 := true }
 /-- No read deadline armed by a probe survives into the relay. -/
 theorem no_deadline_left_armed (cfg : Cfg) (c u : Script) :
     (front cfg c).armed = none ∧ (conn cfg c u).armedAtDial = false := by
-  have h := (front_spec cfg c).armed
+  have h := front_armed cfg c
   refine ⟨h, ?_⟩
   unfold conn
   generalize front cfg c = f at *
@@ -134,6 +134,22 @@ theorem no_deadline_left_armed (cfg : Cfg) (c u : Script) :
   | dns => simp only [hk]
 
 example : (conn exCfg exClient exUp).dial = some 100000 := by decide
+
+/-- …and that matters: this is what the relay does when a probe deadline `d` IS left armed on the client
+socket (the defect of finding #12). With both peers still open at `d`, the connection is over at
+`max T d` — a healthy, merely idle client is cut.  (So `healthy_connection_not_cut` below genuinely
+depends on `no_deadline_left_armed`.) -/
+theorem armed_deadline_cuts_idle_client (cfg : Cfg) (f : Front) (u : Script) (d : Nat)
+    (hp : f.st.poisoned = false) (ha : f.armed = some d)
+    (hc : max f.T d ≤ max f.T f.rest.finT) (hu : max f.T d ≤ max f.T u.finT) :
+    (relayPhase cfg f u).ret = max f.T d ∧ (relayPhase cfg f u).upEof = max f.T d ∧
+    (relayPhase cfg f u).clEof = max f.T d := by
+  have h1 : ¬ max f.T f.rest.finT < max f.T d := by omega
+  unfold relayPhase
+  simp [dirNaturalArmed, ha, hp, dirNatural_clean, h1, hu, resolve]
+
+example : (relayPhase exCfg ⟨.relay, 0, .plain, { exClient with finT := 9000000 }, some 5000000⟩ exUp).ret = 5000000 ∧
+    (relayPhase exCfg ⟨.relay, 0, .plain, { exClient with finT := 9000000 }, none⟩ exUp).ret = 9000000 := by decide
 
 /-- A stream error is latched by the sniffer only when the client really reset the connection during
 detection: a client that ends its stream with FIN is never handed to the relay "poisoned". -/
@@ -149,13 +165,14 @@ is enough: with that much fuel, adding more never changes the result, i.e. the o
 `peekLoop` and `sniffLoop` are dead code and the model's answers are those of the unbounded loops. -/
 theorem detection_fuel_sufficient (s : Script) (fuel k : Nat) (h : s.fuel ≤ fuel + 1) :
     (∀ dl need now buf, peekLoop dl need (fuel + k) s now buf = peekLoop dl need fuel s now buf) ∧
-    (∀ nm dl now buf, sniffLoop nm dl (fuel + k) s now buf = sniffLoop nm dl fuel s now buf) := by
+    (∀ nm off dl now buf, (∀ p ∈ off, 0 < p.2) →
+      sniffLoop nm off dl (fuel + k) s now buf = sniffLoop nm off dl fuel s now buf) := by
   induction k with
-  | zero => exact ⟨fun _ _ _ _ => rfl, fun _ _ _ _ => rfl⟩
+  | zero => exact ⟨fun _ _ _ _ => rfl, fun _ _ _ _ _ _ => rfl⟩
   | succ k ih =>
-    refine ⟨fun dl need now buf => ?_, fun nm dl now buf => ?_⟩
+    refine ⟨fun dl need now buf => ?_, fun nm off dl now buf hoff => ?_⟩
     · rw [← Nat.add_assoc, peekLoop_fuel_stable dl need (fuel + k) s now buf (by omega)]; exact ih.1 _ _ _ _
-    · rw [← Nat.add_assoc, sniffLoop_fuel_stable nm dl (fuel + k) s now buf (by omega)]; exact ih.2 _ _ _ _
+    · rw [← Nat.add_assoc, sniffLoop_fuel_stable nm off hoff dl (fuel + k) s now buf (by omega)]; exact ih.2 _ _ _ _ _ hoff
 
 example : exClient.fuel ≤ exClient.fuel + 1 ∧ exClient.fuel = 24 := by decide
 
@@ -189,16 +206,17 @@ theorem upstream_receives_client_stream (cfg : Cfg) (c u : Script)
   have hstream := fs.stream hk
   have hfin := fs.fin
   have hfinT := fs.finT
+  have ha := front_armed cfg c
   rw [relayPhase_eq cfg c u hk]
   unfold endL endR at hcut
   generalize front cfg c = f at *
   have hup : (relayPhase cfg f u).up = natDelivs f.T f.st.content f.rest := by
     by_cases hle : max f.T f.rest.finT ≤ max f.T u.finT
-    · rw [relayPhase_client_first cfg f u hp hle]
+    · rw [relayPhase_client_first cfg f u hp ha hle]
       simp only [hfin, hc, ↓reduceIte]
       split <;> rfl
     · have hlt : max f.T u.finT < max f.T f.rest.finT := by omega
-      rw [relayPhase_upstream_first cfg f u hp hlt]
+      rw [relayPhase_upstream_first cfg f u hp ha hlt]
       rw [hfinT] at hlt
       rcases hcut with h | ⟨hu, hg⟩
       · omega
@@ -221,6 +239,7 @@ theorem client_receives_upstream_stream (cfg : Cfg) (c u : Script)
   have hfinT := fs.finT
   have hpo := fs.poison
   have hclean : c.fin = .eof → (front cfg c).st.poisoned = false := clean_of_eof cfg c
+  have ha := front_armed cfg c
   rw [relayPhase_eq cfg c u hk]
   unfold endL endR at hcut
   generalize front cfg c = f at *
@@ -233,13 +252,13 @@ theorem client_receives_upstream_stream (cfg : Cfg) (c u : Script)
       · simp [hc] at this
     | false =>
       by_cases hle : max f.T f.rest.finT ≤ max f.T u.finT
-      · rw [relayPhase_client_first cfg f u hp hle]
+      · rw [relayPhase_client_first cfg f u hp ha hle]
         rw [hfinT] at hle
         rcases hcut with h | ⟨hc, hg⟩
         · omega
         · simp only [hfin, hc, hfinT, hg, ↓reduceIte]
       · have hlt : max f.T u.finT < max f.T f.rest.finT := by omega
-        rw [relayPhase_upstream_first cfg f u hp hlt]
+        rw [relayPhase_upstream_first cfg f u hp ha hlt]
         split
         · split <;> rfl
         · rfl
@@ -258,6 +277,7 @@ theorem received_is_prefix_of_sent (cfg : Cfg) (c u : Script) (hc : c.Sorted) (h
   | relay =>
     have hstream := fs.stream hk
     have hsorted := fs.sorted hc
+    have ha := front_armed cfg c
     rw [relayPhase_eq cfg c u hk]
     generalize front cfg c = f at *
     have hl : ∀ ds, ds <+: natDelivs f.T f.st.content f.rest → bytesOf ds <+: c.stream := by
@@ -272,18 +292,18 @@ theorem received_is_prefix_of_sent (cfg : Cfg) (c u : Script) (hc : c.Sorted) (h
     have sr := natDelivs_sorted f.T [] u hu
     cases hp : f.st.poisoned with
     | true =>
-      rw [relayPhase_poisoned cfg f u hp]
+      rw [relayPhase_poisoned cfg f u hp ha]
       exact ⟨hl _ (List.prefix_append _ _), hr _ (cutBefore_prefix _ _ sr)⟩
     | false =>
       by_cases hle : max f.T f.rest.finT ≤ max f.T u.finT
-      · rw [relayPhase_client_first cfg f u hp hle]
+      · rw [relayPhase_client_first cfg f u hp ha hle]
         split
         · split
           · exact ⟨hl _ (List.prefix_refl _), hr _ (List.prefix_refl _)⟩
           · exact ⟨hl _ (List.prefix_refl _), hr _ (cutBefore_prefix _ _ sr)⟩
         · exact ⟨hl _ (List.prefix_refl _), hr _ (cutBefore_prefix _ _ sr)⟩
       · have hlt : max f.T u.finT < max f.T f.rest.finT := by omega
-        rw [relayPhase_upstream_first cfg f u hp hlt]
+        rw [relayPhase_upstream_first cfg f u hp ha hlt]
         split
         · split
           · exact ⟨hl _ (List.prefix_refl _), hr _ (List.prefix_refl _)⟩
@@ -311,6 +331,7 @@ theorem halfclose_client_first (cfg : Cfg) (c u : Script)
   have fs := front_spec cfg c
   have hfin := fs.fin
   have hfinT := fs.finT
+  have ha := front_armed cfg c
   rw [relayPhase_eq cfg c u hk]
   unfold endL endR at *
   generalize front cfg c = f at *
@@ -318,7 +339,7 @@ theorem halfclose_client_first (cfg : Cfg) (c u : Script)
     intro e he
     unfold natDelivs
     exact List.mem_append_right _ (List.mem_map.mpr ⟨e, he, rfl⟩)
-  rw [relayPhase_client_first cfg f u hp (by rw [hfinT]; exact hfirst)]
+  rw [relayPhase_client_first cfg f u hp ha (by rw [hfinT]; exact hfirst)]
   simp only [hfin, hc, hfinT, hcw, ↓reduceIte]
   by_cases hg : max f.T u.finT < max f.T c.finT + grace
   · simp only [hg, ↓reduceIte]
@@ -344,6 +365,7 @@ theorem halfclose_upstream_first (cfg : Cfg) (c u : Script)
   have hfin := fs.fin
   have hfinT := fs.finT
   have hpo := fs.poison
+  have ha := front_armed cfg c
   rw [relayPhase_eq cfg c u hk]
   unfold endL endR at *
   generalize front cfg c = f at *
@@ -351,7 +373,7 @@ theorem halfclose_upstream_first (cfg : Cfg) (c u : Script)
     cases hp : f.st.poisoned with
     | false => rfl
     | true => have := hpo hp; omega
-  rw [relayPhase_upstream_first cfg f u hp (by rw [hfinT]; exact hfirst)]
+  rw [relayPhase_upstream_first cfg f u hp ha (by rw [hfinT]; exact hfirst)]
   simp only [hu, hfinT, hcw, ↓reduceIte]
   by_cases hg : max f.T c.finT < max f.T u.finT + grace
   · simp only [hg, ↓reduceIte]
@@ -364,9 +386,10 @@ example : endR exCfg exClient exUpFirst < endL exCfg exClient ∧
     (conn exCfg exClient exUpFirst).clEof = 600000 ∧ (conn exCfg exClient exUpFirst).ret = 2300000 := by decide
 
 /-- **Never cut early.** Unless the client itself reset the connection, dae never ends a relayed
-connection before one of the two peers has ended its stream — whatever the idle periods, in
-particular across every detection deadline (5 s DNS detection, sniffing timeout, prefetch) — and it
-ends it no later than the grace period after that. -/
+connection before one of the two peers has ended its stream — whatever the idle periods — and it ends
+it no later than the grace period after that.  The proof uses `front_armed` (= `no_deadline_left_armed`):
+the relay phase of the model honours a read deadline left on the client socket
+(`armed_deadline_cuts_idle_client`), so this holds only because every probe clears what it armed. -/
 theorem healthy_connection_not_cut (cfg : Cfg) (c u : Script)
     (hk : (front cfg c).kind = .relay) (hc : c.fin = .eof) :
     min (endL cfg c) (endR cfg c u) ≤ (conn cfg c u).ret ∧
@@ -376,16 +399,17 @@ theorem healthy_connection_not_cut (cfg : Cfg) (c u : Script)
   have fs := front_spec cfg c
   have hfin := fs.fin
   have hfinT := fs.finT
+  have ha := front_armed cfg c
   rw [relayPhase_eq cfg c u hk]
   unfold endL endR
   generalize front cfg c = f at *
   by_cases hle : max f.T f.rest.finT ≤ max f.T u.finT
-  · rw [relayPhase_client_first cfg f u hp hle]
+  · rw [relayPhase_client_first cfg f u hp ha hle]
     rw [hfinT] at hle
     simp only [hfin, hc, hfinT, ↓reduceIte]
     split <;> dsimp only <;> omega
   · have hlt : max f.T u.finT < max f.T f.rest.finT := by omega
-    rw [relayPhase_upstream_first cfg f u hp hlt]
+    rw [relayPhase_upstream_first cfg f u hp ha hlt]
     rw [hfinT] at hlt
     simp only [hfinT]
     split
@@ -401,16 +425,17 @@ theorem no_drop_before_end (cfg : Cfg) (c u : Script)
     ∀ d ∈ natDelivs (front cfg c).T (front cfg c).st.content (front cfg c).rest,
       d.t < (conn cfg c u).ret → d ∈ (conn cfg c u).up := by
   have hp := clean_of_eof cfg c hc
+  have ha := front_armed cfg c
   rw [relayPhase_eq cfg c u hk]
   generalize front cfg c = f at *
   intro d hd
   by_cases hle : max f.T f.rest.finT ≤ max f.T u.finT
-  · rw [relayPhase_client_first cfg f u hp hle]
+  · rw [relayPhase_client_first cfg f u hp ha hle]
     split
     · split <;> exact fun _ => hd
     · exact fun _ => hd
   · have hlt : max f.T u.finT < max f.T f.rest.finT := by omega
-    rw [relayPhase_upstream_first cfg f u hp hlt]
+    rw [relayPhase_upstream_first cfg f u hp ha hlt]
     split
     · split
       · exact fun _ => hd
@@ -432,19 +457,22 @@ theorem timed_agrees_with_engine (T : Nat) (st : Stack) (s : Script) (pending ds
 
 /-! ## 4. Every deadline armed by a probe is cleared on every exit path (regenerated table) -/
 
-/-- The table is regenerated from /repo on every run by a go/ast path extractor over every function of
-the anchor files that calls `SetReadDeadline` with a non-zero time: each row is one control-flow path
-from such a call to an exit of its function.  Outside the relay's own lifecycle (`relayCore.run`:
-grace timer and force-close, which deliberately outlive the function) every path resets the deadline
-to zero — directly or through a registered defer — or closes the conn, or is the path on which the
-arming call itself failed. -/
+/-- The table is regenerated from the repository under check on every run by a go/ast path extractor over
+every function of the anchor files that arms a read deadline (`SetReadDeadline`/`SetDeadline` with a
+non-zero time, or a helper forwarding a deadline parameter to them): each row is one control-flow
+path from such a call to an exit of its function.  Every path resets the deadline to zero — directly
+or through a registered defer — or closes the conn, or is the path on which the arming call itself
+failed; the single exception is the half-close grace timer (`PathRow.isGraceTimer`, keyed on function,
+receiver and deadline expression), whose effect is what `resolve` models. -/
 theorem deadline_cleared_on_every_path : ∀ r ∈ Gen.deadlinePaths, r.good = true := by decide
 
-/-- the extractor did see the three probes (so an empty or truncated table cannot pass) -/
+/-- the extractor did see the probes (so an empty or truncated table cannot pass): at least one
+successfully-armed-and-cleared row in each of the three files that contain them, two in the sniffer,
+and exactly one grace-timer row. -/
 theorem deadline_table_covers_probes :
-    (Gen.deadlinePaths.any fun r => r.func == "readDnsMsgFromBufio" && !r.armFailed) = true ∧
-    (Gen.deadlinePaths.any fun r => r.func == "prefetchForTcpSniff") = true ∧
-    (Gen.deadlinePaths.any fun r => r.func == "Sniffer.readStreamOnceWithReadDeadline") = true ∧
-    (Gen.deadlinePaths.any fun r => r.func == "Sniffer.readStreamOnceAsync") = true := by decide
+    (Gen.deadlinePaths.any fun r => r.file == "control/tcp.go" && r.cleared && !r.armFailed) = true ∧
+    (Gen.deadlinePaths.any fun r => r.file == "control/tcp_sniff_policy.go" && r.cleared) = true ∧
+    2 ≤ ((Gen.deadlinePaths.filter fun r => r.file == "component/sniffing/sniffer.go" && r.cleared).map (·.line)).eraseDups.length ∧
+    (Gen.deadlinePaths.filter fun r => r.isGraceTimer).length = 1 := by decide
 
 end DaeVerif.C05.Props
